@@ -25,6 +25,7 @@ type tupleSpace struct {
 	Sig         func(t map[string]any, ev map[string]any, detail string) (sigs []string, msg string)
 	NonTrivial  func(t map[string]any, ev map[string]any) bool
 	SampleEvery int
+	FailFn      func(c *core.Ctx, t, ev map[string]any, detail string) // replaces Sig + c.Fail for a rejected event
 	Keep        func(ev map[string]any) bool // events that are not kept (tuple not applicable: setup impossible) are left out of the trace
 	Extra       map[string][]byte
 }
@@ -96,6 +97,10 @@ func (ts tupleSpace) run(c *core.Ctx) (tuples, events []map[string]any) {
 		return
 	}
 	for k, idx := range tv.Mismatches {
+		if ts.FailFn != nil {
+			ts.FailFn(c, tuples[idx-1], events[idx-1], tv.Details[k])
+			continue
+		}
 		sigs, msg := ts.Sig(tuples[idx-1], events[idx-1], tv.Details[k])
 		c.Fail(sigs, msg, map[string]any{"tuple": tuples[idx-1], "event": events[idx-1]})
 	}
